@@ -1003,4 +1003,362 @@ theorem cutBytesStream_swap {o : StreamOpt} (h : NoLfNulStream o) (segs : List B
   rw [show (segs.map swap) = segs.map (List.map swapByte) from rfl, tagSegments_map]
   exact this
 
+/-! ## 7. UTF-8 segmentation and character mode (`-c`)
+
+LF and NUL are both one-byte characters, and no other byte class of Table 3-7 contains one and
+not the other, so the segmentation into scalar values commutes with the swap. -/
+
+/-- comparisons against a bound above LF do not tell `b` from `swapByte b` -/
+theorem range_swapByte (lo hi : UInt8) (hlo : 10 < lo) (b : UInt8) :
+    (decide (lo ≤ swapByte b) && decide (swapByte b ≤ hi)) = (decide (lo ≤ b) && decide (b ≤ hi)) := by
+  by_cases h1 : b = 10
+  · subst h1
+    have e : swapByte 10 = 0 := by decide
+    have a1 : ¬ lo ≤ 0 := by
+      rw [UInt8.le_iff_toNat_le]; rw [UInt8.lt_iff_toNat_lt] at hlo
+      simp at hlo ⊢; omega
+    have a2 : ¬ lo ≤ 10 := by
+      rw [UInt8.le_iff_toNat_le]; rw [UInt8.lt_iff_toNat_lt] at hlo
+      simp at hlo ⊢; omega
+    simp [e, a1, a2]
+  · by_cases h2 : b = 0
+    · subst h2
+      have e : swapByte 0 = 10 := by decide
+      have a1 : ¬ lo ≤ 0 := by
+        rw [UInt8.le_iff_toNat_le]; rw [UInt8.lt_iff_toNat_lt] at hlo
+        simp at hlo ⊢; omega
+      have a2 : ¬ lo ≤ 10 := by
+        rw [UInt8.le_iff_toNat_le]; rw [UInt8.lt_iff_toNat_lt] at hlo
+        simp at hlo ⊢; omega
+      simp [e, a1, a2]
+    · rw [swapByte_of_ne h1 h2]
+
+theorem isCont_swapByte (b : UInt8) : isCont (swapByte b) = isCont b :=
+  range_swapByte 0x80 0xBF (by decide) b
+
+theorem charLen_swap : ∀ l : Bytes, charLen (swap l) = charLen l
+  | [] => rfl
+  | b0 :: t => by
+    by_cases h1 : b0 = 10
+    · subst h1; rfl
+    · by_cases h2 : b0 = 0
+      · subst h2; rfl
+      · simp only [swap, List.map_cons, swapByte_of_ne h1 h2]
+        simp only [charLen]
+        by_cases c1 : b0 < 0x80
+        · simp only [c1, if_true]
+        · simp only [c1, if_false]
+          by_cases c2 : (decide (0xC2 ≤ b0) && decide (b0 ≤ 0xDF)) = true
+          · simp only [c2, if_true]
+            rcases t with _ | ⟨b1, t1⟩
+            · rfl
+            · simp only [List.map_cons, isCont_swapByte]
+          · simp only [c2, if_false, Bool.false_eq_true]
+            by_cases c3 : (decide (0xE0 ≤ b0) && decide (b0 ≤ 0xEF)) = true
+            · simp only [c3, if_true]
+              rcases t with _ | ⟨b1, _ | ⟨b2, t2⟩⟩
+              · rfl
+              · rfl
+              · simp only [List.map_cons, isCont_swapByte, range_swapByte 160 191 (by decide),
+                  range_swapByte 128 159 (by decide)]
+            · simp only [c3, if_false, Bool.false_eq_true]
+              by_cases c4 : (decide (0xF0 ≤ b0) && decide (b0 ≤ 0xF4)) = true
+              · simp only [c4, if_true]
+                rcases t with _ | ⟨b1, _ | ⟨b2, _ | ⟨b3, t3⟩⟩⟩
+                · rfl
+                · rfl
+                · rfl
+                · simp only [List.map_cons, isCont_swapByte, range_swapByte 144 191 (by decide),
+                    range_swapByte 128 143 (by decide)]
+              · simp only [c4, if_false, Bool.false_eq_true]
+
+theorem utf8CharsFuel_swap : ∀ (fuel : Nat) (l : Bytes),
+    utf8CharsFuel fuel (swap l) = (utf8CharsFuel fuel l).map (List.map swap)
+  | _, [] => by simp [swap, utf8CharsFuel]
+  | 0, b :: t => by simp [swap, utf8CharsFuel]
+  | fuel + 1, b :: t => by
+    have e1 : utf8CharsFuel (fuel + 1) (swap (b :: t)) =
+        match charLen (swap (b :: t)) with
+        | none => none
+        | some k => (utf8CharsFuel fuel ((swap (b :: t)).drop k)).map ((swap (b :: t)).take k :: ·) := rfl
+    have e2 : utf8CharsFuel (fuel + 1) (b :: t) =
+        match charLen (b :: t) with
+        | none => none
+        | some k => (utf8CharsFuel fuel ((b :: t).drop k)).map ((b :: t).take k :: ·) := rfl
+    rw [e1, e2, charLen_swap]
+    cases charLen (b :: t) with
+    | none => rfl
+    | some k =>
+      simp only
+      rw [show (swap (b :: t)).drop k = swap ((b :: t).drop k) from List.map_drop.symm,
+        utf8CharsFuel_swap fuel, Option.map_map, Option.map_map]
+      congr 1
+      funext x
+      simp [swap, List.map_take]
+
+/-- C11 for the scalar-value segmentation (`-c`): LF and NUL are both one-byte characters -/
+theorem utf8Chars_swap (l : Bytes) : utf8Chars (swap l) = (utf8Chars l).map (List.map swap) := by
+  unfold utf8Chars
+  rw [swap_length, utf8CharsFuel_swap]
+
+theorem validUtf8_swap (l : Bytes) : validUtf8 (swap l) = validUtf8 l := by
+  simp [validUtf8, utf8Chars_swap]
+
+
+theorem boundariesFrom_map_swap : ∀ (cs : List Bytes) (pos : Nat),
+    boundariesFrom pos (cs.map (List.map swapByte)) = boundariesFrom pos cs
+  | [], _ => rfl
+  | c :: t, pos => by
+    simp only [List.map_cons, boundariesFrom, List.length_map, boundariesFrom_map_swap t]
+
+/-- the regex of `-c` (`\b|\B` over valid UTF-8) does not tell LF from NUL -/
+theorem charMatches_swap (l : Bytes) : charMatches (swap l) = charMatches l := by
+  unfold charMatches
+  rw [utf8Chars_swap]
+  cases utf8Chars l with
+  | none => rfl
+  | some cs =>
+    simp only [Option.map_some]
+    rw [show List.map swap cs = cs.map (List.map swapByte) from rfl, boundariesFrom_map_swap]
+
+/-- the domain of C11 for `-c` (the delimiter is empty there) -/
+structure NoLfNulChars (o : Opt) : Prop where
+  delimiter : NoLfNul o.delimiter
+  replace : ∀ r, o.replaceDelimiter = some r → NoLfNul r
+  fallbackOob : ∀ f, o.fallbackOob = some f → NoLfNul f
+  fillers : ∀ f, BoF.filler f ∈ o.bounds.list → NoLfNul f
+  fallbacks : ∀ b f, BoF.bound b ∈ o.bounds.list → b.fallback = some f → NoLfNul f
+  bag : o.regexBag = some charsBag
+  noJson : o.json = false
+
+theorem NoLfNulChars.lits {o : Opt} (h : NoLfNulChars o) : NoLfNulLits o where
+  replace := h.replace
+  fallbackOob := h.fallbackOob
+  fillers := h.fillers
+  fallbacks := h.fallbacks
+  regex := by
+    intro bag hb l
+    rw [h.bag] at hb
+    cases hb
+    exact ⟨charMatches_swap l, charMatches_swap l⟩
+  noJson := h.noJson
+
+/-- **C11, `-c`** (for every input, UTF-8 or not: the model's "no match" on text that is not
+    UTF-8 is symmetric too). -/
+theorem readAndCutStr_swap_chars {o : Opt} (h : NoLfNulChars o) (input : Bytes) :
+    readAndCutStr o.swapped (swap input) = (readAndCutStr o input).mapOut swap := by
+  rw [← Opt.swappedAll_eq_swapped h.delimiter]
+  exact readAndCutStr_swapAll h.lits input
+
+/-! ## 8. Line mode (`-l`) -/
+
+section lines
+variable {σ : UInt8 → UInt8}
+
+theorem lineJoiner_map (e : EOL) (o : Opt) (he : e.byte = σ o.eol.byte) (rest : List BoF) :
+    lineJoiner (o.mapLit σ e) rest = (lineJoiner o rest).map σ := by
+  unfold lineJoiner
+  simp_mapLit [he]
+  split <;> rfl
+
+theorem fwdLine_map (e : EOL) (o : Opt) (he : e.byte = σ o.eol.byte) (line : Bytes) (idx : Int) :
+    ∀ (l : List BoF) (addNl : Bool), (∀ b ∈ l, BoFFixed σ b) →
+      fwdLine (o.mapLit σ e) (line.map σ) idx l addNl =
+        ((fwdLine o line idx l addNl).1.map σ, (fwdLine o line idx l addNl).2.1,
+          (fwdLine o line idx l addNl).2.2)
+  | [], _, _ => rfl
+  | .filler f :: t, addNl, h => by
+    have ih := fwdLine_map e o he line idx t addNl (fun b hb => h b (by simp [hb]))
+    have hf : f.map σ = f := h (.filler f) (by simp)
+    simp only [fwdLine, ih, lineJoiner_map e o he, List.map_append, hf]
+  | .bound b :: t, addNl, h => by
+    have ih := fwdLine_map e o he line idx t false (fun b hb => h b (by simp [hb]))
+    simp only [fwdLine]
+    split
+    · simp_mapLit [he]
+      split
+      · simp only [ih, lineJoiner_map e o he, List.map_append]
+        cases addNl <;> rfl
+      · simp only [List.map_append]
+        cases addNl <;> rfl
+    · rfl
+
+theorem fwdLine_rest_mem (o : Opt) (line : Bytes) (idx : Int) :
+    ∀ (l : List BoF) (addNl : Bool), ∀ b ∈ (fwdLine o line idx l addNl).2.1, b ∈ l
+  | [], _ => by simp [fwdLine]
+  | .filler f :: t, addNl => by
+    intro b hb
+    simp only [fwdLine] at hb
+    exact List.mem_cons_of_mem _ (fwdLine_rest_mem o line idx t addNl b hb)
+  | .bound u :: t, addNl => by
+    intro b hb
+    simp only [fwdLine] at hb
+    split at hb
+    · split at hb
+      · exact List.mem_cons_of_mem _ (fwdLine_rest_mem o line idx t false b hb)
+      · exact hb
+    · exact hb
+
+theorem fwdEnd_map (e : EOL) (o : Opt) (he : e.byte = σ o.eol.byte)
+    (hoob : ∀ f, o.fallbackOob = some f → f.map σ = f) :
+    ∀ (l : List BoF) (a : Bool), (∀ b ∈ l, BoFFixed σ b) →
+      fwdEnd (o.mapLit σ e) l a = (fwdEnd o l a).mapOut (List.map σ)
+  | [], _, _ => by simp [fwdEnd, he]
+  | .filler f :: t, a, h => by
+    have ih := fwdEnd_map e o he hoob t a (fun b hb => h b (by simp [hb]))
+    have hf : f.map σ = f := h (.filler f) (by simp)
+    simp only [fwdEnd, ih, lineJoiner_map e o he, Run.mapOut_pre, List.map_append, hf]
+  | .bound b :: t, a, h => by
+    have ih := fwdEnd_map e o he hoob t false (fun b hb => h b (by simp [hb]))
+    have hb : ∀ f, b.fallback = some f → f.map σ = f := h (.bound b) (by simp)
+    simp only [fwdEnd]
+    cases a with
+    | true =>
+      simp only [if_true]
+      split
+      · rfl
+      · simp only [ih, lineJoiner_map e o he, Run.mapOut_pre]
+    | false =>
+      simp only [Bool.false_eq_true, if_false]
+      cases hfb : b.fallback with
+      | some f =>
+        simp only [ih, lineJoiner_map e o he, Run.mapOut_pre, List.map_append, hb f hfb]
+      | none =>
+        simp_mapLit []
+        cases ho : o.fallbackOob with
+        | some f =>
+          simp only [ih, lineJoiner_map e o he, Run.mapOut_pre, List.map_append, hoob f ho]
+        | none => rfl
+
+theorem stripEol_map (hσ : Function.Injective σ) (eol : UInt8) (l : Bytes) :
+    stripEol (σ eol) (l.map σ) = (stripEol eol l).map σ := by
+  unfold stripEol
+  rw [List.getLast?_map]
+  cases l.getLast? with
+  | none => rfl
+  | some c =>
+    simp only [Option.map_some]
+    by_cases h : c = eol
+    · subst h; simp [List.map_dropLast]
+    · have h' : σ c ≠ σ eol := fun e => h (hσ e)
+      simp [h, h']
+
+end lines
+
+/-- the UTF-8 test of the line-at-a-time reader, isolated.  The model (as the code) applies it in
+    LF mode only (`read_line` vs `read_until`), which is *not* symmetric: on a line that is not
+    UTF-8 the two sides differ.  With the test made unconditional this lemma holds without `hv`
+    (by `validUtf8_swap`) and `readAndCutLines_swap_partial` becomes the full statement. -/
+theorem fwdCheck_swap (o : Opt) (line : Bytes) (hv : validUtf8 line = true) :
+    (decide (o.swappedAll.eol = .newline) && !validUtf8 (swap line)) =
+      (decide (o.eol = .newline) && !validUtf8 line) := by
+  rw [validUtf8_swap, hv]
+  simp
+
+theorem fwdLines_swap {o : Opt} (h : NoLfNulLits o) :
+    ∀ (recs : List Bytes) (idx : Int) (rest : List BoF) (a : Bool),
+      (∀ r ∈ recs, validUtf8 r = true) → (∀ b ∈ rest, BoFFixed swapByte b) →
+      fwdLines o.swappedAll (recs.map swap) idx rest a = (fwdLines o recs idx rest a).mapOut swap
+  | [], idx, rest, a, _, hr => by
+    simp only [List.map_nil, fwdLines]
+    exact fwdEnd_map o.eol.swap o (EOL.swap_byte o.eol) h.fixed.fallbackOob rest a hr
+  | line :: t, idx, rest, a, hv, hr => by
+    have hl := fwdLine_map o.eol.swap o (EOL.swap_byte o.eol) line (idx + 1) rest a hr
+    have hrest : ∀ b ∈ (fwdLine o line (idx + 1) rest a).2.1, BoFFixed swapByte b :=
+      fun b hb => hr b (fwdLine_rest_mem o line (idx + 1) rest a b hb)
+    have ih := fwdLines_swap h t (idx + 1) (fwdLine o line (idx + 1) rest a).2.1
+      (fwdLine o line (idx + 1) rest a).2.2 (fun r hr => hv r (by simp [hr])) hrest
+    simp only [List.map_cons, fwdLines, fwdCheck_swap o line (hv line (by simp))]
+    split
+    · rfl
+    · rw [Opt.swappedAll_eq, show swap line = line.map swapByte from rfl, hl]
+      simp only
+      split
+      · simp_mapLit [EOL.swap_byte, Run.mapOut_ok, swap, List.map_append, List.map_cons, List.map_nil]
+      · rw [← Opt.swappedAll_eq, ih]
+        simp only [swap, Run.mapOut_pre]
+
+/-- `-l`, line-at-a-time algorithm.  PARTIAL: restricted to inputs whose records are valid UTF-8.
+    Full statement (false for the model and the code as they stand, e.g. `-l 1` on `ff 0a` fails
+    while `-z -l 1` on `ff 00` prints it):
+    `cutLinesForwardOnly o.swappedAll (swap input) = (cutLinesForwardOnly o input).mapOut swap`. -/
+theorem cutLinesForwardOnly_swap_partial {o : Opt} (h : NoLfNulLits o) (input : Bytes)
+    (hv : ∀ r ∈ records o.eol.byte input, validUtf8 r = true) :
+    cutLinesForwardOnly o.swappedAll (swap input) = (cutLinesForwardOnly o input).mapOut swap := by
+  unfold cutLinesForwardOnly
+  have : o.swappedAll.eol.byte = swapByte o.eol.byte := EOL.swap_byte o.eol
+  rw [this, records_swap]
+  exact fwdLines_swap h _ 0 _ false hv h.fixed.bounds
+
+/-- **C11, `-l`, buffered algorithm** (full). -/
+theorem cutLines_swap {o : Opt} (h : NoLfNulLits o) (input : Bytes) :
+    cutLines o.swappedAll (swap input) = (cutLines o input).mapOut swap := by
+  unfold cutLines
+  rw [validUtf8_swap]
+  split
+  · rfl
+  · have : o.swappedAll.eol.byte = swapByte o.eol.byte := EOL.swap_byte o.eol
+    rw [this, show swap input = input.map swapByte from rfl, stripEol_map swapByte_injective,
+      ← this]
+    exact cutStr_swap h _ _ _ _ _
+
+theorem forwardTest_swappedAll (o : Opt) :
+    (!o.swappedAll.complement && !o.swappedAll.compressDelimiter &&
+        isForwardOnly o.swappedAll.bounds.list) =
+      (!o.complement && !o.compressDelimiter && isForwardOnly o.bounds.list) := rfl
+
+/-- `-l`, lists served by the buffered algorithm (full). -/
+theorem readAndCutLines_swap_buffered {o : Opt} (h : NoLfNulLits o) (input : Bytes)
+    (hb : (!o.complement && !o.compressDelimiter && isForwardOnly o.bounds.list) = false) :
+    readAndCutLines o.swappedAll (swap input) = (readAndCutLines o input).mapOut swap := by
+  unfold readAndCutLines
+  rw [forwardTest_swappedAll, hb]
+  exact cutLines_swap h input
+
+/-- **C11, `-l`.**  PARTIAL: restricted to inputs whose lines are valid UTF-8 (needed on the
+    line-at-a-time path only, see `fwdCheck_swap`).  Full statement, false as things stand:
+    `NoLfNulLits o → readAndCutLines o.swappedAll (swap input) = (readAndCutLines o input).mapOut swap`.
+    `o.swappedAll` also exchanges LF and NUL in the delimiter: in line mode the delimiter is the
+    terminator. -/
+theorem readAndCutLines_swap_partial {o : Opt} (h : NoLfNulLits o) (input : Bytes)
+    (hv : ∀ r ∈ records o.eol.byte input, validUtf8 r = true) :
+    readAndCutLines o.swappedAll (swap input) = (readAndCutLines o input).mapOut swap := by
+  unfold readAndCutLines
+  rw [forwardTest_swappedAll]
+  split
+  · exact cutLinesForwardOnly_swap_partial h input hv
+  · exact cutLines_swap h input
+
+/-! ## 9. Concrete instances -/
+
+section examples
+
+/-- `-d - -f 2,1` -/
+def exOpt : Opt :=
+  { delimiter := [45],
+    bounds := { list := [.bound { l := .some 2, r := .some 2 },
+                         .bound { l := .some 1, r := .some 1, isLast := true }],
+                lastInteresting := .some 2 } }
+
+/-- `a-b\nc-d\n` -/
+def exInput : Bytes := [97, 45, 98, 10, 99, 45, 100, 10]
+
+example : readAndCutStr exOpt exInput = ⟨[98, 97, 10, 100, 99, 10], .ok⟩ := by decide
+example : readAndCutStr exOpt.swapped (swap exInput) = ⟨[98, 97, 0, 100, 99, 0], .ok⟩ := by decide
+example : readAndCutStr exOpt.swapped (swap exInput) = (readAndCutStr exOpt exInput).mapOut swap := by
+  decide
+
+/-- `-l 1` (after the repair of D13 the delimiter of line mode is the terminator) -/
+def exLines : Opt :=
+  { delimiter := [10], boundsType := .lines, join := true,
+    bounds := { list := [.bound { l := .some 1, r := .some 1, isLast := true }],
+                lastInteresting := .some 1 } }
+
+/-- The full `-l` statement is false on the line-at-a-time path: `ff 0a` is rejected by
+    `read_line` (not UTF-8) while `-z` on `ff 00` prints the line. -/
+example : readAndCutLines exLines [0xFF, 10] = ⟨[], .fail⟩ ∧
+    readAndCutLines exLines.swappedAll (swap [0xFF, 10]) = ⟨[0xFF, 0], .ok⟩ := by decide
+
+end examples
+
 end Tuc
